@@ -104,6 +104,9 @@ class C08(Check):
         recA = {"type": "record", "name": "ns.A", "fields": [{"name": "x", "type": "int"}]}
         enumA = {"type": "enum", "name": "A", "symbols": ["P", "Q"]}
         yield dict(base, writer=recA, reader=[enumA, recA], datum={"x": 1})  # kinds must agree (ac80dc0)
+        yield dict(base, writer=recA, reader=enumA, datum={"x": 1})  # ... also outside a union: no result
+        yield dict(base, writer=enumA, reader={"type": "fixed", "name": "A", "size": 1}, datum="P")
+        yield dict(base, writer={"type": "array", "items": recA}, reader={"type": "array", "items": enumA}, datum=[{"x": 1}], via="container")
         yield dict(base, writer=["null", recA], reader=["null", enumA, recA], datum={"x": 2})
         e1 = {"type": "enum", "name": "E1", "symbols": ["A", "B"]}
         holder_w = {"type": "record", "name": "H", "fields": [{"name": "a", "type": e1}, {"name": "v", "type": "E1"}]}
